@@ -5,6 +5,8 @@ Builds_all == {<<"std", 1>>, <<"std", 2>>, <<"std", 3>>, <<"std", 4>>, <<"lagran
                <<"bubble", 0>>, <<"discont", 0>>, <<"discont", 1>>, <<"discont", 2>>, <<"discont", 3>>}
 Builds_3d == {<<"std", 1>>, <<"std", 2>>, <<"std", 3>>, <<"lagrange", 2>>, <<"bernstein", 3>>, <<"bubble", 0>>, <<"discont", 1>>}
 Dims_12 == {1, 2}
+Dims_1 == {1}
+Builds_cov == {<<"std", 1>>, <<"lagrange", 2>>, <<"bubble", 0>>, <<"discont", 1>>}     \* the small run made with TLC's action coverage
 Dims_2 == {2}
 Dims_3 == {3}
 Emit(x) == PrintT(<<"VF", ToJson(x)>>)
